@@ -70,10 +70,55 @@ func c03xSizeIndependence(r *Rng, tier string, rep *Report) {
 	}
 }
 
+// redeclarations that js.Parse must reject, and their single-declaration counterparts that it must accept, in every kind of
+// scope (seed C03-6: a named function expression whose body declares the function's own name twice was accepted)
+func c03xRedeclarations(r *Rng, tier string, rep *Report) {
+	scopes := []string{"%s", "{%s}", "function f(){%s}", "x=function(){%s}", "x=function b(){%s}", "x=function a(){%s}", "x=()=>{%s}", "class C{m(){%s}}",
+		"class C{static{%s}}", "for(;;){%s}", "if(x){%s}", "switch(x){case 1:%s}", "try{%s}catch(e){}", "try{}catch(e){%s}", "try{}finally{%s}", "l:{%s}",
+		"x={m(){%s}}", "x={get g(){%s}}", "x=async function b(){%s}", "x=function*b(){%s}"}
+	dups := []string{"let b;let b", "let b;const b=1", "const b=1;let b", "let b;class b{}", "class b{};let b", "class b{};class b{}", "let b;var b", "let b,b", "const b=1,b=2",
+		"let b;function b(){}", "let a;let a"}
+	singles := []string{"let b", "const b=1", "class b{}", "var b;var b", "function b(){};var b", "let a;let b", "var a;let b"}
+	params := []string{"x=function b(b){let b}", "function f(b){let b}", "x=(b)=>{let b}", "x=function b(b){const b=1}", "class C{m(b){let b}}", "function f(b,b){'use strict'}", "x=(b,b)=>1", "function f([b],b){let c}"}
+	for o := 0; o < 4; o++ {
+		for _, sc := range scopes {
+			for _, d := range dups {
+				src := fmt.Sprintf(sc, d)
+				ast, err, pan := c03ParseJS([]byte(src), o)
+				_ = ast
+				if pan != nil {
+					rep.Violate("c03-panic:"+src, fmt.Sprintf("js.Parse panics on %q: %v", src, pan), map[string]interface{}{"src": src, "opts": o})
+				} else if err == nil {
+					rep.Violate("c03-reject:redeclaration:"+src, fmt.Sprintf("ill-formed program accepted (a lexical declaration repeats a name of its scope): %q", src), map[string]interface{}{"src": src, "opts": o})
+				}
+				rep.Eval(fmt.Sprintf("redecl:%s/%d", src, o), true, "reject-redeclaration")
+			}
+			for _, d := range singles {
+				src := fmt.Sprintf(sc, d)
+				_, err, pan := c03ParseJS([]byte(src), o)
+				if pan != nil || err != nil {
+					rep.Violate("c03-accept:"+src, fmt.Sprintf("grammatical program rejected: %q: %v %v", src, err, pan), map[string]interface{}{"src": src, "opts": o})
+				}
+				rep.Eval(fmt.Sprintf("single:%s/%d", src, o), true, "accept-declaration")
+			}
+		}
+		for _, src := range params {
+			_, err, pan := c03ParseJS([]byte(src), o)
+			if pan != nil {
+				rep.Violate("c03-panic:"+src, fmt.Sprintf("js.Parse panics on %q: %v", src, pan), map[string]interface{}{"src": src, "opts": o})
+			} else if err == nil && !strings.Contains(src, "(b,b)=>1") && !strings.Contains(src, "f(b,b)") && !strings.Contains(src, "[b],b") {
+				rep.Violate("c03-reject:redeclaration:"+src, fmt.Sprintf("ill-formed program accepted (a lexical declaration repeats a parameter): %q", src), map[string]interface{}{"src": src, "opts": o})
+			}
+			rep.Eval(fmt.Sprintf("param:%s/%d", src, o), true, "reject-redeclaration")
+		}
+	}
+}
+
 func init() {
 	addC03x := func() {
 		if p, ok := props["C03"]; ok {
 			p.Oracles = append(p.Oracles, &Oracle{Name: "c03-size-independence", Run: c03xSizeIndependence})
+			p.Oracles = append(p.Oracles, &Oracle{Name: "c03-redeclarations", Run: c03xRedeclarations})
 		}
 	}
 	c03xHook = addC03x
